@@ -154,11 +154,21 @@ type Plan struct {
 	// Prov, if set, makes this a provider-level schedule exploration case
 	// (provsync.go); Opt and Steps are then unused.
 	Prov *ProvPlan `json:"prov,omitempty"`
+	// Handles, if set, makes this a blob-handle codec round-trip case (C44).
+	Handles []HandlePlan `json:"handles,omitempty"`
+}
+
+// HandlePlan is one inline blob handle (sstable/blob.InlineHandle).
+type HandlePlan struct {
+	Ref, ValueLen, BlockID, ValueID uint32
 }
 
 func (p Plan) Summary() any {
 	if p.Prov != nil {
 		return map[string]any{"profile": p.Profile, "provider_plan": p.Prov.String()}
+	}
+	if len(p.Handles) > 0 {
+		return map[string]any{"profile": p.Profile, "handles": p.Handles}
 	}
 	steps := make([]string, 0, len(p.Steps))
 	for i, s := range p.Steps {
